@@ -503,6 +503,9 @@ def w_ops(ctx, rng, i):
             c_t, c_s = np.array(tshape) / 2.0, S / 2.0
             h[:d, d] = c_s - h[:d, :d] @ c_t + rng.uniform(-1, 1, d)
             t = mt.Affine(h)
+            if op == "warp_affine" and rng.random() < 0.3:
+                # the same map written as a plain homogeneous matrix in another scaling (k * H stands for the same transform)
+                t = mt.Homogeneous(h * [2.0, -1.0, 0.25, 5.0][rng.integers(0, 4)])
             if op == "warp_chain":
                 t = mt.TransformChain([mt.Translation(np.zeros(d)), t])
         elif op == "warp_pwa":
